@@ -39,8 +39,8 @@ def strRope (m : OMap K V) : List String :=
 def jsonRope (m : OMap K V) : List String :=
   ["{\"Atype\":\"hash\""] ++
   (if m.isEmpty then [] else
-    m.flatMap (fun e => [", ", "\"" ++ sh.sexp e.1 ++ "\":" ++ sh.val e.2]) ++
-    [", ", "\"zKeyOrder\":["] ++ (m.map (fun e => "\"" ++ sh.sexp e.1 ++ "\"")).intersperse ", " ++ ["]"]) ++
+    m.flatMap (fun e => [", ", sh.jsonKey e.1 ++ ":" ++ sh.val e.2]) ++
+    [", ", "\"zKeyOrder\":["] ++ (m.map (fun e => sh.jsonKey e.1)).intersperse ", " ++ ["]"]) ++
   ["}"]
 
 def step (m : OMap K V) : Op K V → OMap K V × Obs K V
